@@ -25,6 +25,7 @@ import (
 	"os"
 	"path/filepath"
 	"sort"
+	"strconv"
 	"strings"
 )
 
@@ -92,6 +93,39 @@ func (in *inst) symSpawn(s *ast.GoStmt) *loopInfo {
 		return nil
 	}
 	return l
+}
+
+// rangeElemHook makes the element a `for _, v := range slice` iteration copies out an access of the
+// race oracle: a read of slice[i] at the top of the iteration (guarded: the body may reslice the variable).
+func (in *inst) rangeElemHook(s *ast.RangeStmt) {
+	if !in.race || s.Value == nil || !pure(s.X) || s.Tok != token.DEFINE {
+		return
+	}
+	if id, ok := s.Value.(*ast.Ident); ok && id.Name == "_" {
+		return
+	}
+	t := in.info.TypeOf(s.X)
+	if t == nil {
+		return
+	}
+	if _, ok := t.Underlying().(*types.Slice); !ok {
+		return
+	}
+	key, _ := s.Key.(*ast.Ident)
+	if key == nil || key.Name == "_" {
+		key = ast.NewIdent(in.tmp("K"))
+		s.Key = key
+	}
+	p := in.fset.Position(s.Pos())
+	where := strconv.Quote(fmt.Sprintf("%s:%d", filepath.Base(p.Filename), p.Line))
+	elem := &ast.IndexExpr{X: s.X, Index: key}
+	ptr := &ast.CallExpr{Fun: &ast.SelectorExpr{X: ast.NewIdent("unsafe"), Sel: ast.NewIdent("Pointer")}, Args: []ast.Expr{&ast.UnaryExpr{Op: token.AND, X: elem}}}
+	hook := &ast.IfStmt{
+		Cond: &ast.BinaryExpr{X: key, Op: token.LSS, Y: &ast.CallExpr{Fun: ast.NewIdent("len"), Args: []ast.Expr{s.X}}},
+		Body: &ast.BlockStmt{List: []ast.Stmt{&ast.ExprStmt{X: call("Rd", ptr, &ast.BasicLit{Kind: token.STRING, Value: where})}}},
+	}
+	s.Body.List = append([]ast.Stmt{hook}, s.Body.List...)
+	in.counts["race:Rd(range element)"]++
 }
 
 func hasCall(e ast.Expr) bool {
@@ -533,6 +567,7 @@ func (in *inst) stmt(s ast.Stmt) []ast.Stmt {
 		if !in.isChan(s.X) {
 			pre := in.pre(s.Pos(), nil, []ast.Expr{s.X})
 			pre = append(pre, in.withLoop(s, s.Body)...)
+			in.rangeElemHook(s)
 			return append(pre, s)
 		}
 		in.counts["range-chan"]++
